@@ -40,7 +40,8 @@ def mutate_hex(rnd, h):
 
 
 MUTABLE = {"RUN": (5, 6), "RUNV": (5, 6), "SESSION": (5, 6, 7), "SESSIONV": (5, 6, 7), "EXEC": (5, 6, 7, 9), "EXECF": (5, 6, 7, 9), "DUAL": (), "DISPLAY": (), "FLAGS": (1,), "SN": (1,),
-           "TXPARSE": (1,), "AMOUNT": (1,), "TXARG": (1,), "SPEND": (1, 2, 6, 8, 9), "SPENDR": (1, 2, 6, 8, 9), "TCE": (1, 2, 3), "PRUN": (1, 6, 7)}
+           "TXPARSE": (1,), "AMOUNT": (1,), "TXARG": (1,), "SPEND": (1, 2, 6, 8, 9), "SPENDR": (1, 2, 6, 8, 9), "TCE": (1, 2, 3), "PRUN": (1, 6, 7),
+           "KARGV": (), "KCITE": (), "KMORE": (), "KESC": (), "KUNESC": (), "KSTRIP": (), "KDUPCMD": (), "KEXEC": (), "KRUN": (), "KHIST": ()}
 
 
 def mutate_line(rnd, l):
@@ -235,9 +236,12 @@ def run(ctx):
         ctx.violation("VALGRIND " + " ;; ".join(sample[:3]), {"stream": "valgrind", "stderr": p.stderr[-4000:], "lines": sample,
                       "why": "valgrind memcheck reported an error on the plain build"})
     ctx.count("valgrind", len(sample))
+    from . import c15kerl; c15kerl.run(ctx)
 
 
 def replay(ctx, case):
+    from . import c15kerl
+    if case.split(" ")[0] in c15kerl.WORDS + ("PTY", "PTY-HIST"): return c15kerl.replay(ctx, case)
     asan = hbuild.build("asan")
     if case.startswith("CLI ") or case.startswith("VALGRIND"):
         print(case)
